@@ -621,6 +621,16 @@ fn name_roundtrips_abs(ctx: &Ctx, octets: &[u8], hist: &dyn std::fmt::Debug) {
         if back.as_slice() != octets {
             return Err(format!("text(with dot) round trip changed octets: {textd:?}"));
         }
+        // the same absolute name held as an UncertainName: its text must read back as the same absolute name
+        let u = UncertainName::<Vec<u8>>::from_octets(octets.to_vec()).map_err(|e| format!("UncertainName from_octets rejects: {e}"))?;
+        if !u.is_absolute() || u.as_slice() != octets {
+            return Err("UncertainName::from_octets of an absolute name is not that absolute name".into());
+        }
+        let textu = format!("{}", u);
+        let backu = UncertainName::<Vec<u8>>::from_str(&textu).map_err(|e| format!("UncertainName display does not read back, from_str({textu:?}) fails: {e}"))?;
+        if !backu.is_absolute() || backu.as_slice() != octets {
+            return Err(format!("UncertainName display does not read back as the same absolute name: {textu:?}"));
+        }
         // wire round trip
         let mut buf = Vec::new();
         n.compose(&mut buf).unwrap();
